@@ -11,7 +11,8 @@ from props import frilib as F
 
 PID = 'C06'
 LEVEL = 'proof'
-LEAN_TARGETS = ['Swiftness.Props.C06', 'Swiftness.Prover.FriProver']
+LEAN_TARGETS = ['Swiftness.Props.C06', 'Swiftness.Props.C06b', 'Swiftness.Prover.FriProver']
+PROPS_FILES = ['C06', 'C06b']
 BUILDS = {'quick': [('k160', 'stone5'), ('b248', 'stone5')], 'thorough': [('k160', 'stone5'), ('k248', 'stone5'), ('b160', 'stone5'), ('b248', 'stone5')]}
 RULE = ('honest instances: random layer counts 2..6(8), steps 1..4 incl. single-coset layers, last bound 0..3, blow-up 1..3, friendly counts '
         '0/mid/huge, random polynomials of every length up to the bound (incl. 0, 1, bound), query sets single/adjacent/same-coset/dense; '
